@@ -12,7 +12,8 @@
     Config outside these three functions (proxies writing to _modifications,
     reloads) are covered by the snapshot / object-identity test of the harness. *)
 From InvokeVerif Require Import Common.Tree Common.StrUtil Model.MergeModel Model.ConfigModel
-     Spec.C03Spec Proofs.C03_merge Proofs.C03_order Proofs.C11_clone Proofs.C11_clone_into
+     Spec.C03Spec Spec.C06Spec Proofs.C03_merge Proofs.C03_order Proofs.C06_shapes Proofs.C06_refine
+     Proofs.C06_held Proofs.C11_clone Proofs.C11_clone_into Proofs.C11_history
      Model.HeapMerge Proofs.C11_heap Proofs.C11_heap_abs.
 
 (** [copy_dict] (the recursive copy used for every level) returns an equal
@@ -114,14 +115,114 @@ Proof.
   split; [vm_compute; reflexivity|]. split; vm_compute; discriminate.
 Qed.
 
+(** * Clone fidelity over HISTORIES (the guard is an invariant)
+
+    The theorems above are about a state; these are about how it was reached.
+    Guard, all boolean: [S] is a schema (which paths are sections, which are
+    leaves: the "type-consistent" quantifier); [good0 S c0]: the levels the
+    constructor merged are well-formed dicts conforming to [S], no edits yet,
+    cache = merge; [raw_files_ok c0]: the four file levels are well-formed dicts
+    whether or not they take part; [base_loaded c0] (not lazy-and-never-loaded:
+    F-C11c); every operation satisfies [op_ok S]: root-navigated reads, leaf
+    writes ([c.a.b = v], [update], [setdefault(k[, leaf])]), and EVERY removal --
+    [del], [pop(k)], [pop(k, default)] with ANY default (no condition on
+    [dflt]: the stored value itself included), [popitem], [clear] -- plus
+    load_defaults / load_overrides / load_collection of conforming data and
+    load_shell_env.  Then the state after the history satisfies [clone_guard]
+    and clone() returns an equal state: all levels, the deletions mask and the
+    merged view -- at whatever point of the history the clone is taken, in
+    particular right after a removal, with nothing in between that re-merges.
+    MISSING for the full statement: dict-valued writes (F-C06a merges them),
+    file-level reloads / merge=False loads / re-pointings inside the history,
+    raw edits of handed-out dicts and mutable leaves (F-C06h), cloning into a
+    subclass (C11_clone_into_partial), lazy originals (F-C11c). *)
+Theorem C11_clone_after_history_partial : forall S fs c0 ops,
+  is_node S = true -> good0 S c0 = true -> raw_files_ok c0 = true -> base_loaded c0 = true ->
+  forallb (op_ok S) ops = true ->
+  let c := fst (run fs c0 ops) in
+  clone_guard c = true /\ clone fs c None = (c, ONone).
+Proof. exact history_clone_faithful. Qed.
+
+(** The same for histories WITH HELD PROXIES ([Hold]/[Via], the histories the
+    correspondence runs): guard [sguard] = [op_ok] on every operation and, for an
+    operation through a held proxy, its section still navigable in the live view
+    (C06_refines_nested_dict_held_partial's guard). *)
+Theorem C11_clone_after_held_history_partial : forall S fs c0 ops,
+  is_node S = true -> good0 S c0 = true -> raw_files_ok c0 = true -> base_loaded c0 = true ->
+  sguard S fs (sstart c0) ops = true ->
+  let c := s_cfg (fst (srun fs (sstart c0) ops)) in
+  clone_guard c = true /\ clone fs c None = (c, ONone).
+Proof. exact session_clone_faithful. Qed.
+
+(** pop(key, default) on a key that IS there, on a state reached by a guarded
+    history, WHATEVER the default (it may be the very value stored: [dflt = Some t]):
+    the stored value comes back, the key (and everything below it) is gone from
+    the original's view, a clone taken at once equals the original -- deletions
+    mask included -- and does not show the key either. *)
+Theorem C11_pop_default_then_clone_partial : forall S fs c0 ops fl kp k dflt d0 t,
+  is_node S = true -> good0 S c0 = true -> raw_files_ok c0 = true -> base_loaded c0 = true ->
+  forallb (op_ok S) ops = true ->
+  let c := fst (run fs c0 ops) in
+  nav fl (c_cache c) kp = Ok d0 -> get k d0 = Some t ->
+  let r := step fs c (Pop fl kp k dflt) in
+  snd r = OVal t /\
+  clone fs (fst r) None = (fst r, ONone) /\
+  (forall q, shape_at ((kp ++ [k]) ++ q) (Node (c_cache (fst r))) = None) /\
+  (forall q, shape_at ((kp ++ [k]) ++ q) (Node (c_cache (fst (clone fs (fst r) None)))) = None).
+Proof. exact pop_default_then_clone_hist. Qed.
+
+(** ... and on a key that is NOT there: the default comes back, nothing changes
+    (so a clone taken next is as faithful as before). *)
+Theorem C11_pop_missing_default_no_change : forall fs c fl kp k dv d0,
+  nav fl (c_cache c) kp = Ok d0 -> get k d0 = None ->
+  step fs c (Pop fl kp k (Some dv)) = (c, OVal dv).
+Proof. exact pop_missing_default_no_change. Qed.
+
+(** Non-vacuity: a schema, a constructed configuration, and a history that ends
+    in pop(key, <the value stored>) at top level (None / None), in a nested
+    section (0 / 0), of a whole section, of a missing key, setdefault, popitem;
+    the guard holds, the keys popped are recorded as deleted, absent from the
+    original and from the clone. *)
+Example C11_example_history :
+  let S := Node [("a", Node [("x", Leaf (VInt 0)); ("y", Leaf (VInt 0)); ("z", Leaf VNone)]);
+                 ("b", Node [("p", Leaf (VStr ""))]);
+                 ("k", Leaf (VInt 0)); ("n", Leaf VNone); ("t", Leaf (VBool true))] in
+  let i := mkInit (Node [("a", Node [("x", Leaf (VInt 0)); ("y", Leaf (VInt 0))]);
+                         ("b", Node [("p", Leaf (VStr "v"))]);
+                         ("k", Leaf (VInt 1)); ("n", Leaf VNone)])
+                  (Node [("a", Node [("y", Leaf (VInt 7))])]) None None false in
+  let ops := [ SetV Item ["a"] "z" (Leaf VNone);
+               Pop Item [] "n" (Some (Leaf VNone));               (* None is None *)
+               Pop Attr ["a"] "x" (Some (Leaf (VInt 0)));          (* 0 is 0 *)
+               Pop Item ["a"] "z" (Some (Leaf VNone));
+               Pop Item [] "zz" (Some (Leaf (VInt 1)));            (* missing *)
+               SetDefault Item [] "t" (Some (Leaf (VBool true)));
+               Pop Item [] "t" (Some (Leaf (VBool true)));
+               Pop Item [] "b" (Some (Node [("p", Leaf (VStr "v"))])) ] in   (* a whole section *)
+  match start [] i with
+  | Ok c0 =>
+      is_node S = true /\ good0 S c0 = true /\ raw_files_ok c0 = true /\ base_loaded c0 = true /\
+      forallb (op_ok S) ops = true /\
+      let c := fst (run [] c0 ops) in
+      c_dels c = [("n", Leaf VNone); ("a", Node [("x", Leaf VNone); ("z", Leaf VNone)]);
+                  ("t", Leaf VNone); ("b", Leaf VNone)] /\
+      c_cache c = [("a", Node [("y", Leaf (VInt 7))]); ("k", Leaf (VInt 1))] /\
+      c_cache (fst (clone [] c None)) = c_cache c /\ c_dels (fst (clone [] c None)) = c_dels c
+  | Err _ => False
+  end.
+Proof. vm_compute. repeat split; reflexivity. Qed.
+
 (** A test, not the property: on every history of at most 3 operations from a
-    12-letter alphabet (writes, nested writes, deletions, pop, clear, reloads,
-    dict write) over a two-level configuration, the guard holds afterwards and
-    clone() returns an equal state. *)
+    14-letter alphabet (writes, nested writes, deletions, pop, pop with a
+    default equal to the value stored, clear, reloads, dict write -- the last
+    one outside the guard of the history theorems) over a two-level
+    configuration, the guard holds afterwards and clone() returns an equal
+    state. *)
 Definition sweep_alphabet : list op :=
   [ SetV Item ["a"] "x" (Leaf (VInt 1)); SetV Attr [] "k" (Leaf (VInt 2));
     SetV Item [] "n" (Node [("m", Leaf (VInt 1))]); SetV Item [] "a" (Node [("x", Leaf (VInt 7))]);
     Del Item ["a"] "x"; Del Attr [] "a"; Del Item [] "k"; Pop Item ["a"] "y" None;
+    Pop Item ["a"] "y" (Some (Leaf (VInt 0))); Pop Attr [] "k" (Some (Leaf (VInt 1)));
     Clear Item ["a"]; SetDefault Item ["a"] "z" (Some (Leaf (VInt 2)));
     LoadDefaults (Node [("a", Node [("x", Leaf (VInt 5))])]);
     LoadOverrides (Node [("a", Node [("y", Leaf (VInt 7))])]) ].
